@@ -21,21 +21,28 @@ def run(ctx):
     nsteps = sum(len(p["ops"]) for p in progs)
     ctx.log(f"{len(progs)} programs, {nsteps} steps generated")
 
-    results = []
+    # each program's log is kept as a JSON string (millions of small objects make the collector stall for seconds)
+    results: list[str] = []
+    nexec: list[int] = []
     for p in progs:
         try:
-            results.append(guarded(lambda: fe.run_program(p), 20.0))
+            try:
+                steps = guarded(lambda: fe.run_program(p), 20.0)
+            except CaseTimeout:                     # a stall of the machine is not a verdict: once more, with more time
+                steps = guarded(lambda: fe.run_program(p), 120.0)
         except CaseTimeout as e:
-            results.append([{"a": {"dims": [], "coords": [], "val": []}, "a2": {"none": True},
-                             "b": {"error": str(e), "etype": "CaseTimeout"}}])
-    executed = sum(len(r) for r in results)
+            steps = [{"a": {"dims": [], "coords": [], "val": []}, "a2": {"none": True},
+                      "b": {"error": str(e), "etype": "CaseTimeout"}}]
+        results.append(json.dumps(steps))
+        nexec.append(len(steps))
+    executed = sum(nexec)
     ctx.log(f"{executed} steps executed")
     # judged in chunks (one TLC start each) so that the JSON TLC has to hold stays small
     bad: dict[int, set[str]] = {}
     for k, lo in enumerate(range(0, len(progs), CHUNK)):
         cf, rf = ctx.scratch / f"c13_cases_{k}.json", ctx.scratch / f"c13_results_{k}.json"
         cf.write_text(json.dumps(progs[lo:lo + CHUNK]))
-        rf.write_text(json.dumps(results[lo:lo + CHUNK]))
+        rf.write_text("[" + ",".join(results[lo:lo + CHUNK]) + "]")
         part = p3.judge(ctx, "Fluent", consts, cf, rf, modules=mods, op="FJudge", tag=f"judge{k}", env={"PASS": "fjudge"})
         bad.update({lo + i: names for i, names in part.items()})
     ctx.log("contracts judged")
@@ -46,8 +53,8 @@ def run(ctx):
         raise MachineryError(f"Fluent.tla generated a step its own contract cannot be stated for: program {progs[stray[0] - 1]}")
 
     by_op: dict[str, int] = {}
-    for p, r in zip(progs, results):
-        for o in p["ops"][:len(r)]:
+    for p, ne in zip(progs, nexec):
+        for o in p["ops"][:ne]:
             by_op[o["op"]] = by_op.get(o["op"], 0) + 1
     nontrivial = sum(1 for p in progs for o in p["ops"] if o["n"] > 1 or o["keep"] or len(p["ops"]) > 1 or "none" not in o["other"])
     ctx.coverage.update({
@@ -70,7 +77,7 @@ def run(ctx):
         ctx.sample({"src": {k: p["src"][k] for k in ("dims", "shape", "nocoords", "coords")},
                     "ops": [{k: v for k, v in o.items() if k != "other"} for o in p["ops"]]})
     for i, names in sorted(bad.items()):
-        p, r = progs[i - 1], results[i - 1]
+        p, r = progs[i - 1], json.loads(results[i - 1])
         ops = [{k: v for k, v in o.items() if k != "other"} | ({"other_dims": o["other"]["dims"]} if "none" not in o["other"] else {})
                for o in p["ops"]]
         last = r[-1]["b"]
